@@ -194,6 +194,12 @@ def striped(spec, i, k):
 def build(gtype, g):
     from cnfgen.graphs import Graph, DirectedGraph, BipartiteGraph
     if gtype == 'bipartite':
+        if g['L'] >= 1 and g['R'] >= 1 and len(set(map(tuple, g['edges']))) == g['L'] * g['R'] \
+                and (g['L'] + g['R']) % 2 == 0:
+            # the object the construction `complete L R` delivers: a
+            # CompleteBipartiteGraph keeps no explicit edge set
+            from cnfgen.graphs import CompleteBipartiteGraph
+            return CompleteBipartiteGraph(g['L'], g['R'])
         G = BipartiteGraph(g['L'], g['R'])
     elif gtype == 'simple':
         G = Graph(g['n'])
